@@ -9,7 +9,8 @@ Usage: tools_confirm_seeds.py [ids...]
 """
 import json, os, shutil, subprocess, sys, glob
 
-SRC = "/verif/seeded/_incoming"
+import os as _os
+SRC = _os.environ.get("SEED_SRC", "/verif/seeded/_incoming")
 DST = "/verif/seeded"
 WT = "/tmp/lsf-confirm-wt"
 PY = "/venv/bin/python"
